@@ -6,4 +6,4 @@ From Coq Require Import Extraction ExtrOcamlBasic ZArith List.
 From Maj Require Import Base.Outcome Base.GoTypes Isa.Spec Isa.Embed Isa.Seq.
 Extraction Language OCaml.
 Extraction "spec_oracle.ml" exec embed omap reads writes load_addrs store_addrs
-  seq_run lookup mk_arch rget mget.
+  seq_run step lookup mk_arch rget mget.
